@@ -61,7 +61,9 @@ def run_corpus_subset(ctx, prop):
     from tools_corpus import patches, run   # type: ignore
     res = []
     from concurrent.futures import ThreadPoolExecutor
-    todo = [p for p in patches() if p["prop"] == prop]
+    # large structural rewrites (kind neutral_large) are documented incompleteness: their outcome is reported by tools/corpus.py,
+    # it is neither required nor forbidden here
+    todo = [p for p in patches() if p["prop"] == prop and p["kind"] != "neutral_large"]
     with ThreadPoolExecutor(max_workers=6) as ex:
         results = list(ex.map(lambda q: run(q, only_prop=prop), todo))
     for p, r in zip(todo, results):
